@@ -424,6 +424,39 @@ func runReader(m *mailbox.Machine, items []witem, fuel int) []string {
 	return res
 }
 
+// hiccupReader delivers data, except that the Read which would cross byte offset `at` first returns what lies
+// before it and the next Read fails once with a timeout; after that the stream continues.
+type hiccupReader struct {
+	data  []byte
+	off   int
+	at    int
+	fired bool
+}
+
+type timeoutErr struct{}
+
+func (timeoutErr) Error() string   { return "i/o timeout" }
+func (timeoutErr) Timeout() bool   { return true }
+func (timeoutErr) Temporary() bool { return true }
+
+func (h *hiccupReader) done() bool { return h.off >= len(h.data) }
+func (h *hiccupReader) Read(p []byte) (int, error) {
+	if !h.fired && h.off == h.at {
+		h.fired = true
+		return 0, timeoutErr{}
+	}
+	if h.off >= len(h.data) {
+		return 0, io.EOF
+	}
+	end := len(h.data)
+	if !h.fired && h.at > h.off && h.at < end {
+		end = h.at
+	}
+	n := copy(p, h.data[h.off:end])
+	h.off += n
+	return n, nil
+}
+
 func itemsString(dir int, items []witem) string {
 	var sb strings.Builder
 	for i, it := range items {
@@ -605,6 +638,82 @@ func TestGenC02(t *testing.T) {
 			}
 			return c, what
 		}, rr)
+	}
+	// (2b) a transient transport error (a read deadline, a malformed control message injected by the relay) at every
+	// byte position of the honest stream; the application retries its Read, as net.Conn permits after a timeout.
+	// Whatever the reader then returns as valid is still a prefix of what the peer wrote (the tagged model has no
+	// transient errors: direct oracle only)
+	for ci, recs := range [][][]byte{
+		{{0x00, 0x02}, []byte("hello")},              // a 2-byte record whose body is as long as a header
+		{{0x00, 0x05}, {0x00, 0x02}, []byte("tail")}, // two of them
+		{r.bytes(17), r.bytes(1), r.bytes(40)},
+	} {
+		for dirI := 0; dirI < 2; dirI++ {
+			id++
+			rr := r.sub(id)
+			cfg := pairCfg{kk: ci%2 == 1, minI: 0, maxI: 2, minR: 0, maxR: 2}
+			if cfg.kk {
+				cfg.minI, cfg.minR = 2, 2
+			}
+			base := newMachinePair(rr.sub(77), cfg)
+			if base.errI != nil || base.errR != nil {
+				q.fail("c02:handshake-failed", fmt.Sprintf("%v / %v", base.errI, base.errR))
+				continue
+			}
+			sk, ss, rk, rs, _, _ := base.init.VerifCipherKeys()
+			refs := [2]*refCipher{{key: sk, salt: ss}, {key: rk, salt: rs}}
+			stream := buildStream(refs[dirI], recs)
+			for pos := 0; pos <= len(stream); pos++ {
+				// a fresh pair with the same keys for every position (same seed)
+				p := newMachinePair(rr.sub(77), cfg)
+				reader := p.resp
+				if dirI == 1 {
+					reader = p.init
+				}
+				raw := make([]byte, len(stream))
+				for i, it := range stream {
+					raw[i] = it.b
+				}
+				rd := &hiccupReader{data: raw, at: pos}
+				var res []string
+				for k := 0; k < len(recs)+3; k++ {
+					pl, err := reader.ReadMessage(rd)
+					if err == nil {
+						res = append(res, "ok:"+hx(pl))
+					} else {
+						res = append(res, "err")
+						if errors.Is(err, io.EOF) {
+							break
+						}
+					}
+				}
+				var rh []string
+				for _, rc := range recs {
+					rh = append(rh, hx(rc))
+				}
+				segA, segB := "", ""
+				if pos > 0 {
+					segA = itemsString(dirI, stream[:pos])
+				}
+				if pos < len(stream) {
+					segB = itemsString(dirI, stream[pos:])
+				}
+				o.line("CT %d %s | %s / %s | %s", dirI, strings.Join(rh, ","), segA, segB, strings.Join(res, " "))
+				k, good := 0, true
+				for _, x := range res {
+					if strings.HasPrefix(x, "ok:") {
+						if k >= len(recs) || x != "ok:"+hx(recs[k]) {
+							good = false
+						}
+						k++
+					}
+				}
+				q.check(good, "c02:returned-data-not-a-prefix:transient-read-error", func() string {
+					return fmt.Sprintf("dir %d, records written %v, one transient read error after %d of %d wire bytes, Read retried: reads returned %v", dirI, rh, pos, len(stream), res)
+				})
+				q.stat("edit_transient-read-error", 1)
+			}
+		}
 	}
 	// (3) long streams: a record replayed exactly one or two key rotations later (a key is used for 500 records:
 	// 1000 nonces, two per record), and a record of the other direction with the same nonce
